@@ -525,3 +525,6 @@ def _tree_sign(t, assume):
     if t[0] == "leaf":
         return nf.sign_of(t[1], assume)
     return nf._join(_tree_sign(t[2], assume), _tree_sign(t[3], assume))
+    # ---------------- (f) the (potentiating, depressing) split of every reward-modulated trainer, as a decision tree
+    from .. import reward_tail
+    reward_tail.check(ctx, "C09.f")
